@@ -135,6 +135,23 @@ def main():
         units = [u for u in P.get("units", []) if tier == "thorough" or not u.get("thorough_only")]
         with ThreadPoolExecutor(max_workers=min(16, max(1, len(units)))) as ex:
             reps = list(ex.map(lambda u: run_unit(u, tier, known_open), units))
+        # modularity closure: a contract applied at a call site inside some unit of this property must belong to a function that is itself proved under this
+        # property.  Missing callee units are taken from the registry of all units (any property) and run too, to a fixpoint; a contract with no unit anywhere is an error.
+        all_units = {}; ign = {}
+        for P2 in props.PROPS.values():
+            for u2 in P2.get("units", []):
+                if u2.get("target") and not u2.get("script"):
+                    all_units.setdefault(u2["target"], u2); ign.setdefault(u2["target"], set()).update(u2.get("ignore") or [])
+        closure_added = []; modularity_missing = []
+        for _round in range(6):
+            have_targets = {u.get("target") for u in units}
+            need = sorted({t for rep in reps for t in rep.get("contracts_applied", [])} - have_targets)
+            if not need: break
+            # clauses of a shared contract that some property lists as belonging to another property stay ignored in closure-added units
+            extra = [dict(all_units[t], ignore=sorted(ign[t]) or None) for t in need if t in all_units]; modularity_missing += [t for t in need if t not in all_units]
+            if not extra: break
+            with ThreadPoolExecutor(max_workers=min(16, len(extra))) as ex: reps += list(ex.map(lambda u: run_unit(u, tier, known_open), extra))
+            units = units + extra; closure_added += [u["id"] for u in extra]
         harnesses = [h for h in P.get("bounded", []) if tier == "thorough" or not h.get("thorough_only")]
         if os.environ.get("VERIF_NO_HARNESS"): harnesses = []          # engine self-tests (mutation table) exercise the deductive part only
         with ThreadPoolExecutor(max_workers=4) as ex:
@@ -146,6 +163,7 @@ def main():
         exp_names = json.load(open(os.path.join(ROOT, "contracts", "expected_names.json"))) if os.path.exists(os.path.join(ROOT, "contracts", "expected_names.json")) else {}
         obligations = []; canaries = []; guards = []; engine_errors = []; funcs = []
         fallback_units = []
+        if modularity_missing: engine_errors.append("modularity gap: contracts applied at call sites whose function is not a verification unit anywhere: " + ", ".join(sorted(set(modularity_missing))[:6]))
         for rep in reps:
             if rep.get("error"):
                 # source outside the supported subset / an unmodelled library function is an ENGINE LIMITATION: the unit is not verified;
@@ -162,6 +180,7 @@ def main():
                 missing = [n for n in exp_names.get(pid + ":" + rep["unit"], []) if n not in names]
                 if missing and not rep.get("error"): engine_errors.append(f"{rep['unit']}: obligations no longer generated: {missing[:4]}")
             if not rep["results"] and not rep.get("error"): engine_errors.append(f"{rep['unit']}: zero obligations")
+        # modularity audit (see below the unit loop): nothing to do here
         if a.record_names:
             json.dump(exp_names, open(os.path.join(ROOT, "contracts", "expected_names.json"), "w"), indent=0, sort_keys=True)
         # second opinion on unknowns
@@ -280,6 +299,7 @@ def main():
                "checker_cmd": f"bin/check {pid} --tier {tier}",
                "trusted_base": P.get("trusted_base", []) + ["pyvc symbolic interpreter + library models (assumed contracts of numpy/jax/orbax/omegaconf, see DESIGN.md section 9)", "z3 5.1.0 (cvc5 1.0.3 on unknowns)"] + (["Lean 4.33 kernel + Mathlib"] if P.get("lean") else []),
                "functions_under_contract": funcs,
+               "callee_units_added_by_the_modularity_closure": closure_added,
                "library_models_used": sorted({m for rep in reps for m in rep.get("lib_used", [])}),
                "repo_functions_symbolically_executed": sorted({m for rep in reps for m in rep.get("executed", [])}),
                "obligations_by_backend": dict(by_backend, **({"lean": n_lean} if P.get("lean") else {})),
